@@ -2,7 +2,7 @@
 """Regenerates MANIFEST.json from checks.json (one entry per built check) and properties.jsonl."""
 import json, os, subprocess
 R = os.path.dirname(os.path.dirname(os.path.abspath(__file__)))
-cfg = json.load(open(os.path.join(R, "checks.json")))
+cfg = {f[:-5]: json.load(open(os.path.join(R, "checks.d", f))) for f in sorted(os.listdir(os.path.join(R, "checks.d"))) if f.endswith(".json")}
 props = [json.loads(l) for l in open(os.path.join(R, "properties.jsonl"))]
 try:
     commits = subprocess.run(["git", "-C", "/repo", "log", "--format=%h %s", "--grep=^verif hook"], capture_output=True, text=True).stdout.split("\n")
